@@ -134,12 +134,30 @@ func (q *AcmeQueue) Take() []string {
 	return out
 }
 
-type acmeSigner struct{}
+// AcmeSigner stands for the acme signer where the real one is not under test: it has an account and records how the
+// instance configured it.
+type AcmeSigner struct {
+	mu       sync.Mutex
+	expiring time.Duration
+	configs  int
+}
 
-func (acmeSigner) AcmeAccount(endpoint, emails string, termsAgreed bool) {}
-func (acmeSigner) AcmeConfig(expiring time.Duration)                     {}
-func (acmeSigner) HasAccount() bool                                      { return true }
-func (acmeSigner) Notify(item interface{}) error                         { return nil }
+func (a *AcmeSigner) AcmeAccount(endpoint, emails string, termsAgreed bool) {}
+func (a *AcmeSigner) AcmeConfig(expiring time.Duration) {
+	a.mu.Lock()
+	a.expiring = expiring
+	a.configs++
+	a.mu.Unlock()
+}
+func (a *AcmeSigner) HasAccount() bool { return true }
+
+// Expiring returns the renewal window the signer was last configured with, and how many times it was configured.
+func (a *AcmeSigner) Expiring() (time.Duration, int) {
+	a.mu.Lock()
+	defer a.mu.Unlock()
+	return a.expiring, a.configs
+}
+func (a *AcmeSigner) Notify(item interface{}) error { return nil }
 
 type leader struct{ is bool }
 
@@ -166,6 +184,7 @@ type Sim struct {
 	svc      *services.Services
 	ctx      context.Context
 	P        Params
+	Signer   *AcmeSigner // acme only
 	Dir      string
 	Cfg      *config.Config
 	Client   *MemClient
@@ -338,7 +357,8 @@ func New(p Params) (*Sim, error) {
 		iopt.ReloadQueue = s.ReloadQ
 	}
 	if p.Acme {
-		iopt.AcmeSigner = acmeSigner{}
+		s.Signer = &AcmeSigner{}
+		iopt.AcmeSigner = s.Signer
 		iopt.AcmeQueue = s.Acme
 		iopt.LeaderElector = s.Leader
 	}
